@@ -81,14 +81,16 @@ PROP = dict(
     theorems=['Fit.C14.C14_tables_ok', 'Fit.C14.C14_build_keeps_last', 'Fit.C14.C14_conservation',
               'Fit.C14.C14_conservation_no_file_id', 'Fit.C14.C14_prefix_order', 'Fit.C14.C14_sort_stable',
               'Fit.C14.C14_sort_unique', 'Fit.C14.C14_timestampless_first', 'Fit.C14.C14_sorted_stable_partial',
-              'Fit.C14.C14_sorted_suffix', 'Fit.C14.C14_KF2_witness',
+              'Fit.C14.C14_sorted_suffix', 'Fit.C14.C14_KF2_witness', 'Fit.C14.C14_file_types_pinned', 'Fit.C14.C14_stable_within_kind',
+              'Fit.C14.C14_KF2_class', 'Fit.C14.C14_sorted_unrelated_only', 'Fit.C14.C14_content_stable_within_kind',
               'Fit.C14.C14_content_tables_ok', 'Fit.C14.C14_content_no_panic', 'Fit.C14.C14_content_nil_fieldbase_panics',
               'Fit.C14.C14_content_model_eq', 'Fit.C14.C14_content_norm', 'Fit.C14.C14_content_is_typed_normal',
               'Fit.C14.C14_content_first_sentence_partial', 'Fit.C14.C14_content_conservation_no_file_id',
               'Fit.C14.C14_listener_inv', 'Fit.C14.C14_listener_deadlock_free', 'Fit.C14.C14_listener_eq_sequential',
               'Fit.C14.C14_listener_never_deadlocked', 'Fit.C14.C14_listener_no_carry_over', 'Fit.C14.C14_listener_run_is_path',
               'Fit.C14.C14_listener_unbuffered_handover', 'Fit.C14.C14_listener_buffer0_completes',
-              'Fit.C14.C14_listener_builds_file'],
+              'Fit.C14.C14_listener_builds_file', 'Fit.C14.C14_listener_no_data_race', 'Fit.C14.C14_listener_access_frame',
+              'Fit.C14.C14_listener_terminates', 'Fit.C14.C14_listener_file_sets'],
     extra=_extra,
     families=[dict(name='filedef', prop=True, spec=True), dict(name='listener', spec=True)],
     trusted_base=STD_TRUST + [
